@@ -131,6 +131,18 @@ claim('C02',
       'call-history precondition. Replay by recorded inputs under ASan/UBSan.',
       'DESIGN.md 4 C02')
 
+claim('C04',
+      'Per-link transfer rules: a function contract on the real ValueNode::SetNum (int and double: stored value = documented '
+      'max-among-nonzero of old and new, frame via an arbitrary witness slot) and a lemma that two transfers into one slot '
+      'commute; function contracts on the real RangeCon2Slack entry functions (PostsolveSolution, Pre/PostsolveBasis with '
+      'ReverseBasisLowUpp, PostsolveIIS incl. the raise on an unknown slack value, Pre/PostsolveGeneric int/double, lazy/user-cut '
+      'flags) whose postconditions are the documented slack mapping of the statement, for all node sizes, indices and values.',
+      'Trusted: CBMC, extractor, value vectors as (pointer,length), Get/Set accessors bound to three node arrays with the proved '
+      'SetNum rule, target entries cleaned to zero before a transfer (assumed), no NaN. Not decided: the link graph itself '
+      '(CopyLink, One2Many/Many2One, autolinking over std::deque), exactly-one-value-per-item, CleanUpValueNodes, slack value '
+      'computation. No native replay driver (VIOLATION lines end in no-failing-input-found).',
+      'DESIGN.md 4 C04')
+
 for pid, reason in [
     ('C01', 'relational whole-pipeline equivalence across ~12k lines of CRTP templates; no function boundary carries it and the code is outside the mechanically extractable C subset (DESIGN.md 5)'),
     ('C09', 'whole-process behaviour (exit status, files, exception propagation through try/catch) - not expressible as function contracts here (DESIGN.md 5)'),
